@@ -1,10 +1,14 @@
 #!/bin/bash
 # Regenerates every claimed check's evidence on the current tree (quick tier) and validates it.
+# Exits non-zero - loudly - if any check does not exit 0 on the tree as it stands.
 cd /verif
 rc=0
 for p in $(python3 -c "import json;print(' '.join(c['property_id'] for c in json.load(open('/verif/MANIFEST.json'))['checks']))"); do
-  timeout 900 /verif/bin/govc check --property $p "$@" | tail -1 || rc=1
+  out=$(timeout 900 /verif/bin/govc check --property $p "$@"); e=$?
+  echo "$out" | tail -1
+  if [ $e -ne 0 ]; then rc=1; echo "!!! check $p exited $e on the current tree"; echo "$out" | grep -E "VIOLATION|failed obligation" | head -5; fi
 done
 python3-vt /verif/tools_validate.py || rc=1
 rm -rf /tmp/govc-ev.* 2>/dev/null
+[ $rc -ne 0 ] && echo "!!! run_all: NOT CLEAN"
 exit $rc
